@@ -129,7 +129,11 @@ def mk_system(f_units, f_space, f_inherit):
     # chemostat map: an explicit pattern / explicitly ALL ZERO although species B is chemostated by default in e1 / left to the default
     mode = (_R[f_units] + _R[f_inherit]) % 3
     chem = [[k % 2 for k in range(3 * n)], [0] * (3 * n), None][mode]
-    return RDSystem(net, space, state=[1.0 + 0.5 * k for k in range(3 * n)], chemostats=chem, units_system=us(f_units))
+    state = [1.0 + 0.5 * k for k in range(3 * n)]
+    if (_R[f_units] + _R[f_space]) % 2 == 1:
+        # amounts that are tiny numbers in their own units (molecule counts written in kmol): nothing may round them away
+        state = UnitArray([(1.0 + 0.5 * k) * 1.6605390671738466e-27 for k in range(3 * n)], "kmol")
+    return RDSystem(net, space, state=state, chemostats=chem, units_system=us(f_units))
 
 
 _POL = ["on_t_sample", "on_iteration", "on_interval", "no_sampling"]
@@ -137,7 +141,8 @@ _ISP = ["auto", "none", "Poisson", "redist"]
 
 
 def mk_script(f_units, f_space, f_pol, f_isp, seed):
-    return RDScript(mk_system(f_units, f_space, 1), [0, 0.5, 2.0], time_step=0.125, t_max=["default", 1.5][_R[f_pol] % 2], sampling_policy=_POL[_R[f_pol] % 4],
+    ts = [0, 0.5, 2.0] if _R[f_pol] % 2 == 0 else UnitArray([0.0, 1.3888888888888888e-13, 5.555555555555555e-13], "h")     # the same kind of times, tiny in hours
+    return RDScript(mk_system(f_units, f_space, 1), ts, time_step=[0.125, "3.4722222222222222e-14 h"][_R[f_pol] % 2], t_max=["default", 1.5][_R[f_pol] % 2], sampling_policy=_POL[_R[f_pol] % 4],
                     sampling_interval=0.25, rng_seed=seed, init_state_processing=_ISP[_R[f_isp] % 4], units_system=us(f_units + 1))
 
 
